@@ -107,6 +107,10 @@ class Generator(Curve, Point):
             If something goes wrong, this list will be empty.
         """
         r, s = signature
+        order = self._order
+        if value == 0 or s < 1 or s >= order or r % order == 0:  # type: ignore[operator]
+            # no key verifies such a signature
+            return []
 
         try:
             points = self.points_for_x(r)
